@@ -470,6 +470,47 @@ func main() {
 		}
 	}
 
+	// ---- sizes around powers of ten / two, wide and deep lists ----
+	var sized []secs2.Item
+	for _, n := range []int{9, 10, 99, 100, 255, 256, 1000, 65535, 65536} {
+		bs := make([]byte, n)
+		is := make([]int64, n)
+		for i := range bs {
+			bs[i] = byte(i * 7)
+			if bs[i] == '>' {
+				bs[i] = '}'
+			}
+			is[i] = int64(i) - int64(n)/2
+		}
+		sized = append(sized, secs2.NewASCIIItem(string(bs)), secs2.NewBinaryItem(bs))
+		if n <= 1000 {
+			sized = append(sized, secs2.NewIntItem(4, is))
+			kids := make([]secs2.Item, n)
+			for i := range kids {
+				kids[i] = secs2.NewUintItem(1, uint64(i%256))
+			}
+			sized = append(sized, secs2.NewListItem(kids...), secs2.NewJIS8Item(strings.Repeat("k", n)), secs2.NewUTF8StrItem(strings.Repeat("w", n)))
+		}
+	}
+	for _, depth := range []int{1, 2, 9, 10, 33, 64, 65, 100} {
+		var it secs2.Item = secs2.NewBooleanItem(true)
+		for i := 0; i < depth; i++ {
+			it = secs2.NewListItem(it, secs2.NewASCIIItem("d"))
+		}
+		sized = append(sized, it)
+	}
+	for _, it := range sized {
+		m := mkMsg(it)
+		if m == nil {
+			continue
+		}
+		o := randOpts(r, true)
+		if text := encCase(m, o, "sized"); text != "" && len(text) < 12000 {
+			pcase(text, "encoded-sized")
+		}
+		oracle(m, o)
+	}
+
 	// ---- random in-domain messages x options (the property's first half) ----
 	for i := 0; i < c.N; i++ {
 		it := smlcase.Tree(r, cfgIn, 0, true)
